@@ -1,5 +1,6 @@
-(* Witnesses: the exclusions of the C05 theorems are necessary.  Each witness is
-   in the excluded class and its build is NOT well-formed (by evaluation). *)
+(* Witness: the exclusion of the C05 theorems (C05-K2) is necessary -- a member
+   of the class whose build is NOT well-formed (by evaluation) -- and regression
+   lemmas for the two shapes repaired in build.rs (former C05-K1 / C20-K1). *)
 From Coq Require Import List Arith Bool NArith Lia.
 From GV Require Import Base.Result Gen.TokenTypes Gen.Defs Gen.Instr Model.Parser Model.BuilderWL Model.Compile
   Spec.WfCode Proofs.C05.Known Proofs.C05.WfSound.
@@ -20,67 +21,36 @@ Proof.
   intros nodes init c Hb Hw. apply (wf_code_b_iff nodes init c) in Hw. rewrite Hw in Hb. discriminate.
 Qed.
 
-(* ---- C05-K1: `{ ( ) }` ----
-   the nested body is an empty group; its EndExpression is elided because the
-   main body's EndExpression is the last instruction; the expression's jump
-   entry points one past the end of the stream *)
+(* ---- regression (former C05-K1): `{ ( ) }` ----
+   the nested body is an empty group; before commit b7aaffe its EndExpression
+   was skipped because the main body's EndExpression was the last instruction and
+   the expression's jump entry pointed one past the end of the stream; now the
+   entry names an EndExpression of its own and the build is well-formed *)
 Definition k1_tokens : list token_type := [TT_StartExpression; TT_StartGroup; TT_EndGroup; TT_EndExpression].
 Definition k1_p : nat * list pnode := Eval vm_compute in parsed k1_tokens.
-Definition k1_t : tree := Eval vm_compute in tree_or_leaf k1_p.
 Definition k1_r : bstate * nat := Eval vm_compute in built empty_init k1_p.
 
-Lemma k1_parse : parse k1_tokens = Ok k1_p. Proof. vm_compute. reflexivity. Qed.
-Lemma k1_tree : tree_of (snd k1_p) (fst k1_p) = Some k1_t. Proof. vm_compute. reflexivity. Qed.
-Lemma k1_build : build (snd k1_p) empty_init lit_all (build_fuel (snd k1_p)) (fst k1_p) = Ok k1_r.
-Proof. vm_compute. reflexivity. Qed.
-Lemma k1_known : has_empty_body k1_t = true. Proof. vm_compute. reflexivity. Qed.
-Lemma k1_not_wf_b : wf_code_b (snd k1_p) empty_init (code_of_build k1_r) = false. Proof. vm_compute. reflexivity. Qed.
-Lemma k1_entry_past_end : nth_error (jumps (fst k1_r)) 1 = Some (length (instrs (fst k1_r))).
-Proof. vm_compute. reflexivity. Qed.
-Lemma k1_compile : match compile empty_init lit_all k1_t with Ok c => same_code c k1_r | _ => false end = true.
-Proof. vm_compute. reflexivity. Qed.
+Lemma k1_fixed :
+  parse k1_tokens = Ok k1_p /\
+  build (snd k1_p) empty_init lit_all (build_fuel (snd k1_p)) (fst k1_p) = Ok k1_r /\
+  instrs (fst k1_r) = [(I_Put, OExpr 1); (I_EndExpression, ONone); (I_EndExpression, ONone)] /\
+  jumps (fst k1_r) = [0; 2] /\
+  wf_code_b (snd k1_p) empty_init (code_of_build k1_r) = true.
+Proof. vm_compute. repeat split; reflexivity. Qed.
 
-Lemma K1_refuted :
-  exists root nodes t r,
-    parse k1_tokens = Ok (root, nodes) /\ tree_of nodes root = Some t /\
-    Known_C05_K1 empty_init t /\
-    build nodes empty_init lit_all (build_fuel nodes) root = Ok r /\
-    nth_error (jumps (fst r)) 1 = Some (length (instrs (fst r))) /\
-    ~ wf_code nodes empty_init (code_of_build r).
-Proof.
-  exists (fst k1_p), (snd k1_p), k1_t, k1_r.
-  split; [exact k1_parse|]. split; [exact k1_tree|]. split; [left; exact k1_known|].
-  split; [exact k1_build|]. split; [exact k1_entry_past_end|]. apply not_wf. exact k1_not_wf_b.
-Qed.
-
-(* ---- C05-K1 across a program boundary (C20-K1): `( )` built after a program
-   that ends in EndExpression emits nothing ---- *)
+(* ---- regression (former C20-K1): `( )` built after a program that ends in
+   EndExpression now emits its own EndExpression ---- *)
 Definition k1b_init : binit := mkInit 2 1 (Some (I_EndExpression, ONone)).
 Definition k1b_tokens : list token_type := [TT_StartGroup; TT_EndGroup].
 Definition k1b_p : nat * list pnode := Eval vm_compute in parsed k1b_tokens.
-Definition k1b_t : tree := Eval vm_compute in tree_or_leaf k1b_p.
 Definition k1b_r : bstate * nat := Eval vm_compute in built k1b_init k1b_p.
 
-Lemma k1b_parse : parse k1b_tokens = Ok k1b_p. Proof. vm_compute. reflexivity. Qed.
-Lemma k1b_tree : tree_of (snd k1b_p) (fst k1b_p) = Some k1b_t. Proof. vm_compute. reflexivity. Qed.
-Lemma k1b_build : build (snd k1b_p) k1b_init lit_all (build_fuel (snd k1b_p)) (fst k1b_p) = Ok k1b_r.
-Proof. vm_compute. reflexivity. Qed.
-Lemma k1b_known : empty_after_end k1b_init k1b_t = true. Proof. vm_compute. reflexivity. Qed.
-Lemma k1b_nothing : instrs (fst k1b_r) = []. Proof. vm_compute. reflexivity. Qed.
-Lemma k1b_not_wf_b : wf_code_b (snd k1b_p) k1b_init (code_of_build k1b_r) = false. Proof. vm_compute. reflexivity. Qed.
-
-Lemma K1_shared_refuted :
-  exists root nodes t r,
-    parse k1b_tokens = Ok (root, nodes) /\ tree_of nodes root = Some t /\
-    Known_C05_K1 k1b_init t /\
-    build nodes k1b_init lit_all (build_fuel nodes) root = Ok r /\
-    instrs (fst r) = [] /\
-    ~ wf_code nodes k1b_init (code_of_build r).
-Proof.
-  exists (fst k1b_p), (snd k1b_p), k1b_t, k1b_r.
-  split; [exact k1b_parse|]. split; [exact k1b_tree|]. split; [right; exact k1b_known|].
-  split; [exact k1b_build|]. split; [exact k1b_nothing|]. apply not_wf. exact k1b_not_wf_b.
-Qed.
+Lemma k1b_fixed :
+  parse k1b_tokens = Ok k1b_p /\
+  build (snd k1b_p) k1b_init lit_all (build_fuel (snd k1b_p)) (fst k1b_p) = Ok k1b_r /\
+  instrs (fst k1b_r) = [(I_EndExpression, ONone)] /\ jumps (fst k1b_r) = [2] /\
+  wf_code_b (snd k1b_p) k1b_init (code_of_build k1b_r) = true.
+Proof. vm_compute. repeat split; reflexivity. Qed.
 
 (* ---- C05-K2: a conditional directly in the left operand of `&&` (a tree the
    parser does not produce): the arm is registered with the logical node and
